@@ -446,6 +446,11 @@ func (c *Context) onCommand(message *messages.NoneArgsCommandMessage) {
 	c.Logger().Debug("receive command", log.String("path", c.ref.GetPath()), log.String("command", message.Command.String()))
 	switch message.Command {
 	case messages.CommandPauseMailbox:
+		if c.zombie {
+			// 僵尸不会执行监管者随后的重启指令（状态已为 killed），因此也不会有人再恢复它的邮箱：
+			// 若在此暂停，其邮件将永久滞留，以普通消息投递的优雅终止请求也无法到达，僵尸及其父级都无法被释放。
+			return
+		}
 		c.mailbox.Pause()
 		// 通知事件流
 		c.EventStream().Publish(c, ves.ActorMailboxPausedEvent{
